@@ -10,6 +10,7 @@ import (
 	"context"
 	"encoding/json"
 	"fmt"
+	"net"
 	"os"
 	"strings"
 	"sync"
@@ -35,6 +36,10 @@ func TestMain(m *testing.M) { rep.Main(m, ID) }
 type LiveCase struct {
 	sim.Case
 	BigDesc int `json:"bigDesc,omitempty"`
+	// IdlePeer: another local peer connects to the DAG's status socket while
+	// the run is in progress and sends nothing (a suspended client, a port
+	// probe); status queries must keep being answered.
+	IdlePeer bool `json:"idlePeer,omitempty"`
 }
 
 func genLive(t *rapid.T) LiveCase {
@@ -42,6 +47,7 @@ func genLive(t *rapid.T) LiveCase {
 	if rapid.IntRange(0, 3).Draw(t, "big") == 0 {
 		lc.BigDesc = rapid.SampledFrom([]int{5000, 70000, 140000}).Draw(t, "bigDesc")
 	}
+	lc.IdlePeer = rapid.IntRange(0, 2).Draw(t, "idlePeer") == 0
 	return lc
 }
 
@@ -191,6 +197,7 @@ func checkLive(t rep.Fataler, lc LiveCase) {
 	}()
 
 	var obs []observation
+	var idle net.Conn
 	di := 0
 	deadline := time.Now().Add(40 * time.Second * time.Duration(sim.LoadFactor()))
 	finished := false
@@ -208,6 +215,12 @@ loop:
 		if len(blocked) == 0 {
 			time.Sleep(2 * time.Millisecond)
 			continue
+		}
+		if lc.IdlePeer && idle == nil {
+			if cn, err := net.Dial("unix", d.SockAddr()); err == nil {
+				idle = cn
+				defer cn.Close()
+			}
 		}
 		// observation instant: something is executing right now
 		ob, _, _ := snapshot(w)
@@ -318,7 +331,11 @@ loop:
 	if lc.BigDesc >= 70000 {
 		sizeLabel = "status-document:>64KiB"
 	}
-	rep.Eval(key, fmt.Sprintf("live-observations:%d", min(liveChecked, 6)), "final:"+res.Status, sizeLabel)
+	peerLabel := "idle-peer:none"
+	if idle != nil {
+		peerLabel = "idle-peer:connected"
+	}
+	rep.Eval(key, fmt.Sprintf("live-observations:%d", min(liveChecked, 6)), "final:"+res.Status, sizeLabel, peerLabel)
 	rep.Label(fmt.Sprintf("poller-queries>=%d", np/100*100))
 	if key != "" && rep.WantSample() {
 		rep.Sample(map[string]any{"stage": "live", "steps": c.Steps, "observations": obs, "final": res.Final, "polls": np})
